@@ -99,7 +99,7 @@ def generate(seed, tier):
         limit = swarm.randint(0, len(table) + 1)  # rows beyond the validation limit are still data rows (and counted)
     return {"limit": limit, "cid": spec, "table": table, "reads": reads, "shared_cid": swarm.random() < 0.5,
             "create_up_front": swarm.random() < 0.4, "fault": fault,
-            "ods_features": sorted(swarm.sample(["colruns", "colstyle", "stored"], swarm.randint(0, 2)))}
+            "ods_features": sorted(swarm.sample(["colruns", "colstyle", "stored", "rowruns", "links"], swarm.randint(0, 2)))}
 
 
 def _eol(spec):
